@@ -150,10 +150,10 @@ def run(ctx):
     for i in fills:
         n = gk.nodes[i]
         nm = n.get("cname")
-        if nm == "clear":
-            continue
+        if nm in ("clear", "reserve", "shrink_to_fit"):
+            continue       # cannot introduce a pid
         t = X(n["args"][0]) if n.get("args") else ""
-        if not (nm == "push_back" and re.match(r"^std::sto[il]+\((const )?std::string\(var:line", t)):
+        if not (nm in ("push_back", "emplace_back") and re.match(r"^std::sto[il]+\(((const )?std::string\()?var:line", t)):
             okf = False
             ctx.violation("pids-filled-from-procs-lines", "provenance", gk.loc(i),
                           "pids vector mutated by %s(%s)" % (nm, t[:80]))
@@ -162,20 +162,29 @@ def run(ctx):
                "pids only receives integers parsed from the lines read")
     gl = gk.calls("getline")
     ctx.count("getline_sites", len(gl))
-    ctx.floor("getline_sites", 1, "getline in getAndTryToKillPids")
+    if not gl:
+        ctx.violation("procs-opened-on-victim-fd", "provenance", gk.loc(),
+                      "getAndTryToKillPids no longer reads cgroup.procs line by line from a file opened on the victim's directory fd")
     for i in gl:
         a = [X(x) for x in gk.nodes[i]["args"]]
-        ctx.check(a[0] == "&var:line" and re.match(
-            r"^fdopen\(openat\(param:target\.fd\(\)\.fd\(\), Oomd::Fs::kProcsFile, \d+\), \"r\"\)$", a[2]) is not None,
-            "procs-opened-on-victim-fd", "provenance", gk.loc(i),
-            "lines come from openat(target's held dir fd, cgroup.procs)",
-            "lines are read from " + a[2])
+        # C getline(&line, &len, FILE*)  or  std::getline(stream, line)
+        src = a[2] if len(a) >= 3 else a[0] if a else "?"
+        if src.startswith("var:"):
+            # a stream object: where was it opened?
+            _, v = gk.vardecl(next((vv["decl"] for d in gk.all("decl") for vv in gk.nodes[d].get("vars", [])
+                                    if vv["name"] == src[4:]), None))
+            src = X(v["init"]) if v is not None and "init" in v else src
+        ok = re.search(r"openat\(param:target\.fd\(\)(\.fd\(\))?, Oomd::Fs::kProcsFile", src) is not None
+        ctx.check(ok, "procs-opened-on-victim-fd", "provenance", gk.loc(i),
+                  "lines come from openat(target's held dir fd, cgroup.procs)",
+                  "the pids to signal are read from " + src[:160] + " - not from a file opened relative to the victim's held "
+                  "directory fd, so a cgroup re-created under the same path would be signalled")
     # other writers of `line`
     for i in gk.calls():
         n = gk.nodes[i]
         if i in gl:
             continue
-        if any(X(x) == "&var:line" for x in n.get("args", [])) and n.get("cname") not in ("free",):
+        if any(X(x) == "&var:line" for x in n.get("args", [])) and n.get("cname") not in ("free", "getline"):
             ctx.violation("line-written-elsewhere", "provenance", gk.loc(i), "line buffer also written by " + gk.text(i)[:60])
 
     # ------------------------------------------------------------ R5/R6 descent only through the victim's children
